@@ -6,7 +6,8 @@ import fsgen
 class C13(PropertyCheck):
     pid = "C13"
     rule = ("streams: corpus (F16: a layer containing a copy of its own absolute path; F18: glob metacharacters in directory names); "
-            "histories dominated by list (default pattern, '**/*', '*', '*.<ext>', '**/*.<ext>', '<name>/*') and subdirectories, localized and not, "
+            "every history up to length 2 (thorough 3) over a 13-call alphabet on three colliding paths from five two-layer states; "
+            "random histories dominated by list (default pattern, '**/*', '*', '*.<ext>', '**/*.<ext>', '<name>/*') and subdirectories, localized and not, "
             "interleaved with writes and create_dir, on 1-4 real temp-directory layers with nested and empty directories, the same path in "
             "several layers, hidden names, names with glob metacharacters, listings of the root, of files and of missing directories; every "
             "listed path is put to the filesystem's own exists.  Non-trivial = a listing call returned at least one entry; distinct = distinct case line.")
@@ -20,7 +21,7 @@ class C13(PropertyCheck):
 
     def generate(self, rng, tier):
         n = 3000 if tier == "quick" else 15000
-        return fsgen.gen_cases(rng, tier, "c13", n, "listing-histories")
+        return fsgen.exhaustive_cases(tier) + fsgen.gen_cases(rng, tier, "c13", n, "listing-histories")
 
     def nontrivial(self, case, impl_out):
         return fsgen.nontrivial(case, impl_out, ("L", "S"))
